@@ -133,7 +133,7 @@ def main(tier, seed, workers):
     mm['errors'] = (pm or {}).get('errors', [])
     # distinct non-trivial: the enumerator counts distinct arguments by construction (each enumerated once);
     # random extras may repeat, so only the enumerated ones + distinct padding cases are claimed
-    distinct = (res['nontrivial'] - 2 * nrand if res else 0) + len(mm['nontrivial'])
+    distinct = (res.get('enum_nontrivial', 0) if res else 0) + len(mm['nontrivial'])
     mm['nontrivial'] = max(distinct, 0)
     fw.write_evidence(PROP, tier, seed, 'exploration', mm, RULE, time.time() - t0,
                       ['ASan red zones make any access outside an exact-size heap buffer visible', 'reference = header contract in include/graphite2/Font.h'],
